@@ -171,12 +171,12 @@ def exec_watch_case(case: dict) -> dict:
             b = side(outb["runs"][-1])
             k += 1
             rels.append({"tid": case["tid"], "k": k, "rel": "watch_eq_restart", "a": a, "b": b,
-                         "info": {"phase": off + i + 1, "events": phases[off + i + 1]["edits"]}})
+                         "info": {"phase": off + i + 1, "events": phases[off + i + 1]["edits"], "keep_going": bool(cfg.get("keep_going"))}})
         if run["exc"] or run["hang"]:
             rels.append({"tid": case["tid"], "k": k + 1, "rel": "watch_eq_restart",
                          "a": {"state": run["final_state"], "disk": disk_ev(run["disk"]), "rc": 1},
                          "b": {"state": run["final_state"], "disk": disk_ev(run["disk"]), "rc": 0},
-                         "info": {"phase": -1, "events": [str(run["exc"]), "hang" if run["hang"] else ""]}})
+                         "info": {"phase": -1, "events": [str(run["exc"]), "hang" if run["hang"] else ""], "keep_going": True}})
     finally:
         world.destroy()
         for snap in snaps:
